@@ -13,6 +13,7 @@ import Hw.Topo.RestrictSurvive
 import Hw.Topo.RestrictMerge
 import Hw.Topo.RenderTop
 import Hw.Topo.RenderCounts
+import Hw.Topo.RenderCover
 import Hw.Attr.MemAttrsState
 namespace Hw.Props.C08
 open Hw.Topo Hw.Topo.Restrict Hw.Gen.Restrict
@@ -270,8 +271,9 @@ example : okT demoMerge.tree = true ∧ (restrict demoMerge ⟨1, false⟩ (flag
             special-list-links (here); no-children-where-forbidden (C08_render_no_children, needs PUs to be leaves); depth-by-type, depth-increases, in-its-level (incl. both cousin
             links), nobjs, levels-listed, level-entries-valid, levels-in-tree-order, normal-levels-nonempty, depth-le-objects,
             level0-is-root (for a Machine root) (C08_render_levels, which also needs the root to be a normal object).
-    Proved further below (A8): children-counts (C08_render_children_counts), root-is-machine and numa-exists (C08_render_top).
-    NOT proved (still judged by the oracle wfCheck on every AFTER dump): the topology-level clauses levels-cover-objects,
+    Proved further below (A8): children-counts (C08_render_children_counts), root-is-machine and numa-exists (C08_render_top),
+    levels-cover-objects (C08_render_levels_cover), machine-only-at-root (C08_restrict_wf_partial).
+    NOT proved (still judged by the oracle wfCheck on every AFTER dump): the topology-level clauses
             normal-level-types, type-depth-inverse, pu-level-deepest,
             machine-only-at-root; and every clause about sets / memory / attributes that is not a link (sets-presence,
             cpuset-is-disjoint-union-of-children, memory-child-shares-cpuset, memcache-nodeset, nodeset-decomposition,
@@ -652,13 +654,20 @@ theorem C08_render_children_counts (t : Tree) (ht : typedT t = true) (h : Hdr) (
     objClause "children-counts" (render t h ex) (mkAux (render t h ex)) o = true :=
   render_children_counts t ht h ex o ho
 
+/-- (4) **levels-cover-objects** for the rendering of ANY typed tree with a normal root: the normal levels (a partition of the
+    normal-reachable = normal-typed objects) and the six special levels (one per non-normal type) together list as many entries as
+    there are objects -/
+theorem C08_render_levels_cover (t : Tree) (ht : typedT t = true) (hr : isNormal t.obj.type = true) (h : Hdr) (ex : RObj → Extra) :
+    topClause "levels-cover-objects" (render t h ex) (mkAux (render t h ex)) = true :=
+  render_levels_cover t ht hr h ex
+
 /-- (4) **C08_restrict_wf_partial**: for an input whose tree is typed, has PUs as leaves, a Machine root and is `mergeSafe` (all
     consequences of WF and of the API fact about filters: C08_wf_implies_okT, C08_wf_mergeSafe), the topology
     after ANY restrict call — with NO hypothesis on the result — satisfies, besides the 7 link clauses of C08_restrict_links and
     the 9 level clauses of C08_restrict_levels: no-children-where-forbidden and children-counts (every object), root-is-machine,
     level0-is-root and machine-only-at-root (`machineOnce`: at most one Machine object, C08_wf_mergeSafe).
     Named _partial because the full `WF (afterDump …)` is not reached: still judged by wfCheck on the real AFTER dump are
-    levels-cover-objects, normal-level-types, type-depth-inverse, pu-level-deepest,
+    normal-level-types, type-depth-inverse, pu-level-deepest,
     numa-exists (reduced to the survival of one NUMA node: C08_restrict_numa_exists) and the set / memory / attribute clauses
     other than the proved set statements (SetsOK, PU / NUMA singletons, exactness). -/
 theorem C08_restrict_wf_partial (t : Topo) (flagsT : Nat) (s : CSet) (flags : Nat) (ex : RObj → Extra)
@@ -712,20 +721,20 @@ theorem C08_restrict_numa_exists (t : Topo) (flagsT : Nat) (s : CSet) (flags : N
 
 /-! ### A8: everything from `WF d` alone -/
 
-/-- the 12 object-level and 9 topology-level WF clauses that are PROVED for the topology after any restrict call -/
+/-- the 12 object-level and 10 topology-level WF clauses that are PROVED for the topology after any restrict call -/
 def provedObjClauses : List String :=
   ["id-is-position", "root-or-parent", "parent-kind", "normal-child-slot", "children-array", "special-list-heads",
    "special-list-links", "no-children-where-forbidden", "children-counts", "depth-by-type", "depth-increases", "in-its-level"]
 def provedTopClauses : List String :=
   ["nobjs", "levels-listed", "level-entries-valid", "levels-in-tree-order", "normal-levels-nonempty", "depth-le-objects",
-   "level0-is-root", "root-is-machine", "machine-only-at-root"]
+   "level0-is-root", "root-is-machine", "machine-only-at-root", "levels-cover-objects"]
 
 /-- **C08_restrict_from_wf_partial** — the summary statement, with NO hypothesis besides `WF d` (plus: the engine could rebuild a
     tree, and the API fact that PU / Machine are not filtered KEEP_STRUCTURE).  For every set and every flag word, with `T` the
     topology of the dump and `R` the model's result:
     (a) `R` satisfies again every tree hypothesis (SetsOK, typing, PUs are leaves, Machine root, mergeSafe, one Machine), so the
         statement applies to the next call too;
-    (b) the rendered result satisfies 12 object-level and 9 topology-level clauses of `WF` (`provedObjClauses`, `provedTopClauses`);
+    (b) the rendered result satisfies 12 object-level and 10 topology-level clauses of `WF` (`provedObjClauses`, `provedTopClauses`);
     (c) after a successful call by cpuset the PUs are exactly the previous PUs with os_index ∈ S, each still a singleton, and a
         NUMA node disappears only under REMOVE_CPULESS when CPU-less afterwards; by nodeset the mirror statements — all through
         level merging.
@@ -782,7 +791,7 @@ theorem C08_restrict_from_wf_partial (d : Dump) (h : WF d) (t : Tree) (ht : tree
     · exact (levels.1 o ho).2.2
   · intro c hc
     simp only [provedTopClauses, List.mem_cons, List.mem_nil_iff, or_false] at hc
-    rcases hc with rfl | rfl | rfl | rfl | rfl | rfl | rfl | rfl | rfl
+    rcases hc with rfl | rfl | rfl | rfl | rfl | rfl | rfl | rfl | rfl | rfl
     · exact levels.2.1
     · exact levels.2.2.1
     · exact levels.2.2.2.1
@@ -792,6 +801,7 @@ theorem C08_restrict_from_wf_partial (d : Dump) (h : WF d) (t : Tree) (ht : tree
     · exact part.2.2.1
     · exact part.2.1
     · exact part.2.2.2
+    · exact render_levels_cover _ a1.2.1 a1.2.2 _ ex
   · intro p hp hret
     constructor
     · intro hb
